@@ -13,10 +13,16 @@ for _enc in (None, 'utf-16-le', 'utf-16-be', 'utf-32-le', 'utf-32-be'):
     for _kind in ('unix', 'dos'):
         NEWLINES.append(spec.nl_bytes(_kind, _enc))
 
+# EBCDIC code pages: LF is 0x25 ('%' in ASCII), CRLF is 0x0D 0x25
+EBCDIC_NEWLINES = [spec.nl_bytes('unix', 'cp037'), spec.nl_bytes('dos',
+                                                                'cp037')]
+EBCDIC_ALPHABET = (b'\r', b'%', b'\x00', b' ', b'a')
+
 ASSUMPTIONS = [
-    'the newline sequences the library uses are LF / CRLF in ASCII and in '
-    'UTF-16/32 LE/BE (none of them overlaps itself, so "number of newline '
-    'occurrences" is unambiguous)',
+    'the newline sequences the library uses are LF / CRLF in ASCII, in '
+    'UTF-16/32 LE/BE and in the EBCDIC code pages (0x25, 0x0D 0x25); none '
+    'of them overlaps itself, so "number of newline occurrences" is '
+    'unambiguous',
 ]
 
 
@@ -107,7 +113,8 @@ MAXLEN = {'quick': 7, 'thorough': 9}
 
 
 def chunks(tier, seed):
-    out = [('short', 'cold'), ('short', 'warm')]
+    out = [('short', 'cold'), ('short', 'warm'), ('ebcdic', 'cold'),
+           ('ebcdic', 'warm')]
 
     for a in range(len(ALPHABET)):
         for b in range(len(ALPHABET)):
@@ -169,6 +176,26 @@ def _run_chunk_here(chunk, st):
 
     chunk = chunk[:-1]
 
+    if chunk[0] == 'ebcdic':
+        evals = nontrivial = 0
+
+        for n in range(1, 7):
+            for t in itertools.product(EBCDIC_ALPHABET, repeat=n):
+                data = b''.join(t)
+
+                for nl in EBCDIC_NEWLINES:
+                    evals += 1
+                    nontrivial += nl in data and len(data) > len(nl)
+                    res = judge(data, nl)
+
+                    if res is not None:
+                        st.violation(res[0], '%s; data=%r newline=%r'
+                                     % (res[1], data, nl), [data, nl])
+
+        st.classes['$evals'] += evals
+        st.classes['$nontrivial'] += nontrivial
+        return
+
     if chunk[0] == 'short':
         strings = list(ALPHABET)
     else:
@@ -219,7 +246,7 @@ def boundary_chunks(tier, seed):
 def run_line_count_chunk(n, st):
     evals = 0
 
-    for nl in NEWLINES:
+    for nl in NEWLINES + EBCDIC_NEWLINES:
         for unit in (b'a', b''):
             for tail in (b'', b'tail', b'\r', nl[:-1] or b'x'):
                 data = (unit + nl) * n + tail
@@ -249,7 +276,7 @@ def run_boundary_chunk(chunk, st):
     evals = 0
     sample = None
 
-    for nl in NEWLINES:
+    for nl in NEWLINES + EBCDIC_NEWLINES:
         for k in (1, 2):
             for off in range(-len(nl) - 1, 2):
                 pos = k * block + off
@@ -304,7 +331,7 @@ def strategy():
 
     @st.composite
     def case(draw):
-        nl = draw(st.sampled_from(NEWLINES))
+        nl = draw(st.sampled_from(NEWLINES + EBCDIC_NEWLINES))
         pieces = [nl, nl, nl[:-1], nl[1:], b'\r', b'\n', b'\x00', b' ',
                   b'a', b'\r\n', b'\r\r\n', b'\n\r', nl + nl]
         toks = draw(st.lists(
